@@ -57,6 +57,20 @@ static void acc(const char *which, struct json_object *o, char *vbuf, size_t vn,
 		snprintf(vbuf, vn, "%" PRId32, v);
 		errno = SENTINEL;
 		(void)json_object_get_int(o);
+		/* the value does not depend on what errno held on entry (a caller that never looks at errno need not clear it) */
+		int es_keep = errno;
+		for (int k = 0; k < 2; k++)
+		{
+			errno = k ? EINVAL : ERANGE;
+			int32_t v2 = json_object_get_int(o);
+			if (v2 != v)
+			{
+				size_t l = strlen(vbuf);
+				snprintf(vbuf + l, vn - l, "!with-stale-errno-%d:" "%" PRId32, k ? EINVAL : ERANGE, v2);
+				break;
+			}
+		}
+		errno = es_keep;
 	}
 	else if (!strcmp(which, "i64"))
 	{
@@ -66,6 +80,20 @@ static void acc(const char *which, struct json_object *o, char *vbuf, size_t vn,
 		snprintf(vbuf, vn, "%" PRId64, v);
 		errno = SENTINEL;
 		(void)json_object_get_int64(o);
+		/* the value does not depend on what errno held on entry (a caller that never looks at errno need not clear it) */
+		int es_keep = errno;
+		for (int k = 0; k < 2; k++)
+		{
+			errno = k ? EINVAL : ERANGE;
+			int64_t v2 = json_object_get_int64(o);
+			if (v2 != v)
+			{
+				size_t l = strlen(vbuf);
+				snprintf(vbuf + l, vn - l, "!with-stale-errno-%d:" "%" PRId64, k ? EINVAL : ERANGE, v2);
+				break;
+			}
+		}
+		errno = es_keep;
 	}
 	else if (!strcmp(which, "u64"))
 	{
@@ -75,6 +103,20 @@ static void acc(const char *which, struct json_object *o, char *vbuf, size_t vn,
 		snprintf(vbuf, vn, "%" PRIu64, v);
 		errno = SENTINEL;
 		(void)json_object_get_uint64(o);
+		/* the value does not depend on what errno held on entry (a caller that never looks at errno need not clear it) */
+		int es_keep = errno;
+		for (int k = 0; k < 2; k++)
+		{
+			errno = k ? EINVAL : ERANGE;
+			uint64_t v2 = json_object_get_uint64(o);
+			if (v2 != v)
+			{
+				size_t l = strlen(vbuf);
+				snprintf(vbuf + l, vn - l, "!with-stale-errno-%d:" "%" PRIu64, k ? EINVAL : ERANGE, v2);
+				break;
+			}
+		}
+		errno = es_keep;
 	}
 	else if (!strcmp(which, "d"))
 	{
@@ -84,6 +126,20 @@ static void acc(const char *which, struct json_object *o, char *vbuf, size_t vn,
 		snprintf(vbuf, vn, "%016" PRIx64, dbits(v));
 		errno = SENTINEL;
 		(void)json_object_get_double(o);
+		/* the value does not depend on what errno held on entry (a caller that never looks at errno need not clear it) */
+		int es_keep = errno;
+		for (int k = 0; k < 2; k++)
+		{
+			errno = k ? EINVAL : ERANGE;
+			double v2 = json_object_get_double(o);
+			if (dbits(v2) != dbits(v))
+			{
+				size_t l = strlen(vbuf);
+				snprintf(vbuf + l, vn - l, "!with-stale-errno-%d:" "%016" PRIx64, k ? EINVAL : ERANGE, dbits(v2));
+				break;
+			}
+		}
+		errno = es_keep;
 	}
 	else
 	{
